@@ -42,9 +42,12 @@ type sysRes struct {
 	counts    []string
 }
 
-func sysFaultScenario(seed uint64, idx int, root string) []sysRes {
+func sysFaultScenario(seed uint64, idx int, root string, fixed string, enc *string) []sysRes {
 	rng := common.NewRng(seed*49979687 + uint64(idx))
-	sc := sys.GenScenario(rng)
+	sc := sys.GenScenarioOr(rng, fixed)
+	if enc != nil {
+		*enc = sc.Encode()
+	}
 	w := sc.W
 	dir := filepath.Join(root, fmt.Sprintf("f%d", idx))
 	defer os.RemoveAll(dir)
@@ -117,6 +120,7 @@ func runSysFaults(o *common.Opts) {
 	scens := o.Scens("SYSF", n)
 	n = len(scens)
 	results := make([][]sysRes, n)
+	encs := make([]string, n)
 	var wg sync.WaitGroup
 	sem := make(chan struct{}, 8)
 	for i := 0; i < n; i++ {
@@ -125,7 +129,7 @@ func runSysFaults(o *common.Opts) {
 		go func(i int) {
 			defer wg.Done()
 			defer func() { <-sem }()
-			results[i] = sysFaultScenario(scens[i].Seed, scens[i].Idx, filepath.Join(root, fmt.Sprintf("k%d", i)))
+			results[i] = sysFaultScenario(scens[i].Seed, scens[i].Idx, filepath.Join(root, fmt.Sprintf("k%d", i)), scens[i].Fixed, &encs[i])
 		}(i)
 	}
 	wg.Wait()
@@ -136,7 +140,7 @@ func runSysFaults(o *common.Opts) {
 				out.Count(c)
 			}
 			for _, f := range r.fails {
-				out.Fail(f[0], f[1], fmt.Sprintf("SYSF %d %d %s", scens[i].Seed, scens[i].Idx, o.Tier))
+				out.Fail(f[0], f[1], fmt.Sprintf("SYSF %d %d %s %s", scens[i].Seed, scens[i].Idx, o.Tier, encs[i]))
 			}
 		}
 	}
